@@ -740,7 +740,7 @@ harness_run(void)
     vh_unit("invalid", 0, u_invalid, NULL);
     for (uint64_t i = 0; i < NFUN * 8; i++)
         vh_unit("plumb", i, u_plumb, NULL);
-    for (uint64_t i = 0; i < (vh_tier ? 400u : 40u); i++)
+    for (uint64_t i = 0; i < (vh_tier ? 6000u : 40u); i++)
         vh_unit("random", i, u_random, NULL);
     for (uint64_t i = 0; i < 8; i++)
         vh_unit("big", i, u_big, NULL);
